@@ -89,6 +89,9 @@ func c17(w *core.World, r *core.Report) {
 	r.Rule("R17.12", "every command on the id → name index is issued with database 0 selected by the same function", 4)
 	ruleIndexInDbZero(w, r)
 
+	r.Rule("R17.13", "a mode migration carries over the greater of the old namespace's mode state and its root checkpoint: the root is read before the old namespace is deleted, and raises the seed when it is ahead", 1)
+	ruleMigrationJoinsRoot(w, r)
+
 	r.Rule("R17.6", "an index entry is deleted only under a test that it is not the entry just written (old id != new id)", 2)
 	for _, name := range []string{"pkg/redis/checkpoint.UpdateCheckpoint", "(*syncer.syncer).resolveBisyncCheckpointNameWithClient"} {
 		f := fn(w, r, name)
